@@ -270,3 +270,30 @@ func FindNearestCentroidIndex(v []float32, centroids [][]float32, distance Dista
 
 	return minIdx
 }
+
+// preprocessedTrainingSample returns a preprocessed copy of every training
+// vector: the form in which an index stores vectors (for cosine the unit
+// vector, for the Euclidean family the vector itself). The input is not
+// modified.
+func preprocessedTrainingSample(vectors []VectorNode, distance Distance) ([][]float32, error) {
+	sample := make([][]float32, len(vectors))
+	for i, v := range vectors {
+		p, err := distance.Preprocess(v.Vector())
+		if err != nil {
+			return nil, err
+		}
+		sample[i] = p
+	}
+	return sample, nil
+}
+
+// normalizeCentroids brings centroids into the metric's own space. Cosine
+// distance is computed as 1 - dot on unit vectors, so a centroid (the mean of
+// unit vectors, shorter than 1) has to be rescaled to unit length for that
+// number to be its cosine distance; a zero centroid stays as it is. For the
+// Euclidean family preprocessing changes nothing.
+func normalizeCentroids(centroids [][]float32, distance Distance) {
+	for _, c := range centroids {
+		_ = distance.PreprocessInPlace(c)
+	}
+}
